@@ -924,7 +924,8 @@ class World(masterloop.LoopWorld):
             client.call_hook = None
             inner = plan['op']
             if inner['op'] not in ('presence_down', 'presence_up',
-                                   'app_delete_quiet', 'srv_set'):
+                                   'app_delete_quiet', 'srv_set',
+                                   'srv_delete'):
                 raise simkit.HarnessError('intrusion %r' % (inner,))
             ev_before = set(self.zk.children(z.EVENTS) or [])
             self.faults['mid_call_world_event'] = \
@@ -2834,6 +2835,41 @@ class Generator:
         # change lands in is the one that handles that batch)
         return {'op': 'drain'}
 
+    def g_reload_vanish(self, world):
+        """A server that holds instances is redeclared (capacity) and,
+        while the master reloads it, deleted: its definition goes between
+        two of the master's reads of it (C09-C11: no harness-side record of
+        what the master was shown is needed)."""
+        if world.prop in CELL_PROPS:
+            return None
+        cands = []
+        for name in self._servers(world):
+            data = world._zk_obj(z.path.server(name)) or {}
+            if data.get('parent') and \
+                    world.zk.children(z.path.placement(name)):
+                cands.append((name, data))
+        if not cands or world.master is None:
+            return None
+        name, old = self.rng.choice(cands)
+        grown = self.rng.choice(CAP_SPELL)(
+            self.rng.randint(self.config['cap_hi'],
+                             self.config['cap_hi'] + 4) * 256)
+        self.follow.extend([
+            {'op': 'srv_set', 'name': name, 'parent': old['parent'],
+             'partition': old.get('partition') or '_default',
+             'memory': grown, 'cpu': old.get('cpu'),
+             'disk': old.get('disk'), 'traits': old.get('traits') or [],
+             'up_since': old.get('up_since')},
+            {'op': 'snap', 'path': z.EVENTS},
+            {'op': 'process', 'intrude': {
+                'on_path': z.path.server(name),
+                'at': self.rng.choice([1, 2, 2, 3]),
+                'op': {'op': 'srv_delete', 'name': name,
+                       'raw': self.rng.random() < 0.5}}},
+            {'op': 'master_cycle', 'focus': True},
+            {'op': 'drain'}, {'op': 'master_cycle'}])
+        return {'op': 'drain'}
+
     def g_stale_presence_snapshot(self, world):
         """A server the master holds as down registers again, the watch
         fires, and the server is gone again before the master gets to the
@@ -3370,7 +3406,7 @@ OP_WEIGHTS = [
     ('blackout_near_miss', 3), ('reload_race', 3),
     ('identity_shrink_regrow', 3), ('drop_group_members', 0),
     ('late_event', 3), ('blackout_then_failover', 3),
-    ('trait_gained_then_probe', 0),
+    ('trait_gained_then_probe', 0), ('reload_vanish', 3),
 ]
 
 
@@ -3491,6 +3527,9 @@ def make_config(prop, tier, rng):
     if prop == 'C02':
         cfg['m_probe_weight'] = 14
         cfg['wmul']['trait_gained_then_probe'] = 1.0
+    if prop == 'C10':
+        # (few runs per batch: the scenario made for it is not left to luck)
+        cfg['wmul']['reload_vanish'] = 4.0
     if prop != 'C10':
         # (C10 enumerates the crash points itself)
         cfg['p_cycle_crash'] = rng.choice([0.0, 0.0, 0.05, 0.12])
